@@ -150,6 +150,12 @@ class CircuitGraphBranch(GraphBranch[OperationGraphNode]):
 
         # Node has relation and is present in graph, append to this (reference) node in graph
         relation_node: Optional[OperationGraphNode] = graph.get_corresponding_node(operation=node.operation.relation_link.reference_node)
+        # Node follows a group of operations, append to the deepest (last listed) of the group,
+        # such that it is listed after every operation of the group and not only after the latest-ending one
+        if isinstance(node.operation.relation_link, MultiRelationLink):
+            for graph_node in graph.get_node_iterator():
+                if any(graph_node.operation is reference for reference in node.operation.relation_link._reference_nodes):
+                    relation_node = graph_node
         relation_node_present: bool = relation_node is not None
         if has_relation and relation_node_present:
             graph.append_pointer_to(relation_node, node)
